@@ -93,6 +93,14 @@ def evaluate(sid, all_checks=False, tier="quick"):
         print("refusing: /repo is not clean")
         return 2
     res = {"id": sid, "property": prop, "repo_head": sh("git -C /repo rev-parse --short HEAD")[1].strip(), "tier": tier}
+    try:
+        prev = json.load(open(os.path.join(dst, "result.json")))
+        if not all_checks and "other_checks" in prev:
+            # keep the cross-check information of an earlier full evaluation
+            res["other_checks"] = prev["other_checks"]
+            res["other_checks_evaluated_at"] = prev.get("other_checks_evaluated_at", prev.get("repo_head"))
+    except Exception:
+        pass
     rc, out = sh(f"git -C /repo apply --check {os.path.join(dst, 'patch.diff')}")
     if rc != 0:
         res["applies"] = False
